@@ -47,6 +47,17 @@ theorem c06_appended_exactly (ops : List (κ × DP)) (fp : FP κ β) :
   | nil => simp
   | cons op ops ih => rw [List.foldl_cons, ih, persist_measProj]; simp
 
+/-- Profile experiments (`_ProfileFilePersistence`): a profile data point is written as *one* line
+(invocation, number of iterations, the run's columns, the run id, the profile as JSON) after the same lazy
+open and the same metadata records.  In the model it is a data point with a single entry, and `persist`
+appends exactly one measurement line for it — the session-level theorems (`c06_appended_exactly`,
+`c06_metadata_precedes`, `c06_header_once`, …) hold for it unchanged; only the layout of the line differs,
+which the correspondence check reads with the profile column order. -/
+theorem c06_profile_one_line (k : κ) (inv it : Nat) (m : Meas) (fp : FP κ β) :
+    (persist benchOf k { inv := inv, it := it, ms := [m] } fp).content.filterMap measProj
+      = fp.content.filterMap measProj ++ [(k, inv, it, m)] := by
+  rw [persist_measProj]; rfl
+
 /-- "in the right file": a data point of run `c` goes to every file of `c`
 (the files of the experiments containing the run) and to no other -/
 theorem c06_right_files (c : RB.Session.RunC κ) (dp : DP) (files : List (FP κ β)) (f : Nat)
